@@ -82,9 +82,16 @@ PatsOfLen(n) == {[i \in 1..n |-> MkElem(f[i], i)] : f \in [1..n -> ElemChoices]}
 BigPool == {p \in UNION {PatsOfLen(n) : n \in 1..BigLen} : p[1].k # "optional"}
 
 \* ---------------------------------------------------------------- the state space
-VARIABLES ph, st, hist, nreg, nfun, h,
+VARIABLES ph, b, st, hist, nreg, nfun, h,
           texts, look    \* the lookups of the history and their results, computed once per state
-vars == <<ph, st, hist, nreg, nfun, h, texts, look>>
+vars == <<ph, b, st, hist, nreg, nfun, h, texts, look>>
+\* the "single" behaviours are spread over NB bucket states (the successors of one state are computed by one worker)
+NB == 32
+ElemCode(e) == CASE e.k = "lit" -> Len(e.w) [] e.k = "any" -> 5 [] e.k = "int" -> 7 [] e.k = "word" -> 9 [] e.k = "float" -> 11
+                 [] e.k = "custom" -> 13 [] e.k = "many" -> 15 [] OTHER -> 17
+RECURSIVE PatCode(_,_)
+PatCode(p, i) == IF i > Len(p) THEN 0 ELSE (ElemCode(p[i]) + Len(p[i].name)) * (2 * i + 1) + PatCode(p, i + 1)
+Bucket(p) == PatCode(p, 1) % NB
 Seed == IF "C11_SEED" \in DOMAIN IOEnv THEN atoi(IOEnv.C11_SEED) % 60000 ELSE 1
 \* hash of the choices of a history (all products stay below 2^31)
 KindCode(mk) == CASE mk = "parse" -> 0 [] mk = "cfparse" -> 1 [] mk = "re" -> 2 [] OTHER -> 3
@@ -109,10 +116,12 @@ EndAct(mk)    == Act("end", mk, "", <<>>, <<>>, 0, "")
 SetDefAct(mk) == Act("setdef", mk, "", <<>>, <<>>, 0, "")
 RegAct(s, ty, p, func, res) == Act("reg", s.current, ty, p, Render(p, s.current), func, res)
 
-Init == ph = "start" /\ st = InitReg /\ hist = <<>> /\ nreg = 0 /\ nfun = 0 /\ h = 0 /\ texts = <<>> /\ look = <<>>
+Init == ph = "start" /\ b = 0 /\ st = InitReg /\ hist = <<>> /\ nreg = 0 /\ nfun = 0 /\ h = 0 /\ texts = <<>> /\ look = <<>>
 
-Single == /\ ph = "start"
-          /\ \E p \in BigPool, mk \in Kinds, ty \in SingleTypes :
+ToBucket == /\ ph = "start" /\ ph' = "bucket" /\ b' \in 0..(NB - 1)
+            /\ UNCHANGED <<st, hist, nreg, nfun, h, texts, look>>
+Single == /\ ph = "bucket"
+          /\ \E p \in {q \in BigPool : Bucket(q) = b}, mk \in Kinds, ty \in SingleTypes :
                 /\ Renderable(p, mk)
                 /\ LET s1 == UseMatcher(st, mk)
                        r  == Register(s1, ty, p, 1)
@@ -120,13 +129,13 @@ Single == /\ ph = "start"
                       /\ hist' = (IF mk = "parse" THEN <<>> ELSE <<UseAct(mk)>>) \o <<RegAct(s1, ty, p, 1, r.res)>>
                       /\ texts' = TextsFor(hist')
                       /\ look' = LooksFor(st', texts')
-          /\ ph' = "single" /\ nreg' = 1 /\ nfun' = 1 /\ h' = h
+          /\ ph' = "single" /\ nreg' = 1 /\ nfun' = 1 /\ h' = h /\ b' = b
 
 EnvDefault == /\ ph = "start"
               /\ \E mk \in Defaults \ {"parse"} :
                     /\ st' = SetDefault(st, mk)
                     /\ hist' = <<SetDefAct(mk)>>
-              /\ ph' = "hist" /\ h' = 7 /\ UNCHANGED <<nreg, nfun, texts, look>>
+              /\ ph' = "hist" /\ h' = 7 /\ UNCHANGED <<b, nreg, nfun, texts, look>>
 
 \* an optional matcher switch, then one registration
 PreOptions(s) == {[a |-> "none", kind |-> s.current]}
@@ -149,9 +158,9 @@ RegisterStep ==
                   /\ texts' = TextsFor(hist')
                   /\ look' = LooksFor(st', texts')
             /\ nfun' = IF func > nfun THEN func ELSE nfun
-   /\ ph' = "hist" /\ nreg' = nreg + 1
+   /\ ph' = "hist" /\ nreg' = nreg + 1 /\ b' = b
 
-Next == Single \/ EnvDefault \/ RegisterStep
+Next == ToBucket \/ Single \/ EnvDefault \/ RegisterStep
 Spec == Init /\ [][Next]_vars
 
 \* ---------------------------------------------------------------- lookups of a history
@@ -205,8 +214,8 @@ ValidLens(p, toks, lens) ==
               [] OTHER               -> lens[i] = 1 /\ from <= Len(toks) /\ InClass(p[i].k, toks[from])
    /\ SumTo(lens, Len(p)) = Len(toks)
 \* order in which the matchers try: untyped fields shortest first, an optional field present first
-Earlier(p, a, b) == \E i \in DOMAIN p : /\ \A j \in 1..(i - 1) : a[j] = b[j]
-                                        /\ IF p[i].k = "optional" THEN a[i] > b[i] ELSE a[i] < b[i]
+Earlier(p, la, lb) == \E i \in DOMAIN p : /\ \A j \in 1..(i - 1) : la[j] = lb[j]
+                                          /\ IF p[i].k = "optional" THEN la[i] > lb[i] ELSE la[i] < lb[i]
 LensOfMatch(p, m) == LET fs == {i \in DOMAIN p : p[i].k # "lit"}
                          idx(i) == Cardinality({j \in fs : j <= i})
                      IN [i \in DOMAIN p |-> IF p[i].k = "lit" THEN 1 ELSE m.spans[idx(i)].t - m.spans[idx(i)].f + 1]
@@ -217,8 +226,8 @@ MatchLaw(p, toks) ==
       ELSE LET lm == LensOfMatch(p, m) IN lm \in all /\ \A l \in all : l = lm \/ Earlier(p, lm, l)
 MatchIsLeftmostShortest ==
    /\ ph = "single" => \A k \in DOMAIN LookTexts : MatchLaw(hist[Len(hist)].pat, LookTexts[k])
-   /\ ph = "start"  => \A a, b \in DOMAIN SmallPool : \A k \in DOMAIN TextsOf(SmallPool[b]) :
-                           MatchLaw(SmallPool[a], TextsOf(SmallPool[b])[k])
+   /\ ph = "start"  => \A pa, pb \in DOMAIN SmallPool : \A k \in DOMAIN TextsOf(SmallPool[pb]) :
+                           MatchLaw(SmallPool[pa], TextsOf(SmallPool[pb])[k])
 \* the reported arguments delimit their original text, in order, without overlap
 ArgsLaw(args, toks) ==
    LET chars == Join(toks) IN
